@@ -322,6 +322,24 @@ func (p *Path) lastStoreToConfined(a *ssa.Alloc, closures map[*ssa.MakeClosure]b
 	return nil
 }
 
+// RecordField: ld reads, as a whole, a private record (a struct variable whose
+// address goes nowhere) on this path; the result is the value its field holds
+// at that read — the last store the path made into the field, through
+// whole-record copies of other private records, or the zero value when the
+// record was declared on the path and the field never assigned. nil when ld is
+// not such a read or the value is unknown.
+func (p *Path) RecordField(ld ssa.Value, field int) ssa.Value {
+	u, ok := ld.(*ssa.UnOp)
+	if !ok || u.Op != token.MUL {
+		return nil
+	}
+	a, ok := u.X.(*ssa.Alloc)
+	if !ok || !privateRecord(a) {
+		return nil
+	}
+	return p.lastFieldStoreBefore(a, field, u)
+}
+
 // lastFieldStoreBefore: the value the path last stored into one field of a private record before the load
 // `before` (of the field or of the whole record); the zero value when the record was allocated on the path
 // and the field never assigned; nil when unknown.
